@@ -171,6 +171,40 @@ def large_bounds():
     return n, fails
 
 
+def zoo_domain_task(names):
+    """Transforms whose documented domain is the whole real line (everything in the zoo that is not flagged
+    as living on the unit box) accept every finite input, near and far - through every wrapper that builds
+    them (coupling layers with an unconditional transform, autoregressive layers, CDF layers with tails)."""
+    warnings.filterwarnings("ignore")
+    import torch
+
+    torch.set_num_threads(1)
+    from nflows.transforms.base import InputOutsideDomain
+    from vcore import zoo
+
+    Z = zoo.by_name()
+    out = {"n": 0, "fails": []}
+    for name in names:
+        e = Z[name]
+        try:
+            m = zoo.prepare(e, e.build(0), 0)
+            m.eval()
+        except Exception:  # noqa
+            continue
+        x, c = e.x(5, 0), e.ctx(5, 0)
+        for label, xin in (("generic", x), ("x 6", x * 6.0), ("offset -40", x - 40.0), ("offset +40", x + 40.0)):
+            out["n"] += 1
+            try:
+                with torch.no_grad():
+                    m.forward(xin, c) if c is not None else m.forward(xin)
+            except InputOutsideDomain:
+                out["fails"].append({"kind": "zoo_domain", "transform": name, "inputs": label, "clause": "in_domain_rejected", "dtype": "float32", "detail": "%s is defined on the whole real line but forward raises InputOutsideDomain on %s inputs (max |x| = %.3g)" % (name, label, float(xin.abs().max()))})
+                break
+            except Exception:  # noqa  (other failures are other properties' business)
+                pass
+    return out
+
+
 def main(run, replay=None):
     run.rule = (
         "cases = spline lattice points (in-domain, on the end points, outside) of every parameter set in both directions, "
@@ -181,6 +215,10 @@ def main(run, replay=None):
         c = replay["case"]
         if c.get("kind") == "spline":
             return splinerun.replay_spline(run, "C17", c)
+        if c.get("kind") == "zoo_domain":
+            for f in zoo_domain_task([c["transform"]])["fails"]:
+                run.violation({"kind": "zoo_domain", "clause": f["clause"], "transform": f["transform"]}, "replayed: " + f["detail"], c)
+            return
         if c.get("kind") == "large_bound":
             n, fails = large_bounds()
             for f in fails:
@@ -206,6 +244,12 @@ def main(run, replay=None):
     n, lf = large_bounds()
     run.evaluations += n
     fails += lf
+    from vcore import zoo as _z
+
+    znames = [e.name for e in _z.entries() if e.kind == "transform" and not e.has("bounded01") and not e.has("discrete") and not e.has("umnn") and e.name not in ("Logit", "Logit/eps", "CauchyCDFInverse")]
+    for out in pmap(zoo_domain_task, [znames[i::8] for i in range(8)], 8):
+        run.evaluations += out["n"]
+        fails += out["fails"]
     for s in states:
         if str(s["cls"]) != "inside":
             run.nontrivial.add((str(s["tr"]["name"]), str(s["cls"]), int(s["batch"]), int(s["pos"]), str(s["mode"]), str(s["via"])))
